@@ -14,6 +14,9 @@ from pyvc.values import (FIN, SBool, SFloat, SInt, And, Implies, Ite, Not, Or, e
 from .c02_point import onseg_qf
 
 P = ('C01',)
+# the segment tests are symmetric in the direction of each segment (their contracts say so: the overlap of the
+# coordinate ranges, the geometric meet): what "oriented() does not change any intersection result" (C15) rests on
+PSEG = ('C01', 'C15')
 INT = 'spatialpandas/geometry/_algorithms/intersection.py'
 Z = SFloat.const(0.0)
 ONE = SFloat.const(1.0)
@@ -59,7 +62,7 @@ def register(reg):
     reg.add(Contract(INT + '::segments_intersect_1d', [(n, F) for n in ('ax0', 'ax1', 'bx0', 'bx1')], returns=Bool(),
                      ensures=lambda c, r: [('intervals-overlap', r == And(
                          fmin(c.ax0, c.ax1) <= fmax(c.bx0, c.bx1), fmin(c.bx0, c.bx1) <= fmax(c.ax0, c.ax1)))],
-                     props=P))
+                     props=PSEG))
 
     # ------------------------------------------------------------ segments_intersect
     names = ('ax0', 'ay0', 'ax1', 'ay1', 'bx0', 'by0', 'bx1', 'by1')
@@ -100,7 +103,7 @@ def register(reg):
                 ('sound', Implies(r, sound))]
 
     reg.add(Contract(INT + '::segments_intersect', [(n, F) for n in names], returns=Bool(),
-                     requires=si_requires, ensures=si_ensures, props=P, merge=False,
+                     requires=si_requires, ensures=si_ensures, props=PSEG, merge=False,
                      configs=[{'b': 'horizontal'}, {'b': 'vertical'}], tactic='qfnra-nlsat'))
 
     # ------------------------------------------------------------ multipoints_intersect_bounds
